@@ -23,6 +23,7 @@ RULE = (
     "case = (plan with keyed runs, stages, injections). Hypothesis profile 'keys' (+ duplicate opens guarded by try/except) "
     "and a pause/suspend sweep over the 'nested_keys' corpus plan. Non-trivial: at least two runs were open simultaneously "
     "and events were emitted into at least two runs. Distinct = canonical JSON."
+    " Run keys include the falsy keys 0 and ''; keyed runs may sit under a default-key set_run_key_wrapper; two differently tagged runs must never reach the engine under one key."
 )
 ASSUMPTIONS = ["requests arrive at boundaries between event-loop callbacks"]
 
